@@ -1063,19 +1063,25 @@ func (o *ovsdbClient) monitor(ctx context.Context, cookie MonitorCookie, reconne
 	case ovsdb.MonitorRPC:
 		var reply ovsdb.TableUpdates
 		err = o.rpcClient.CallWithContext(ctx, monitor.Method, args, &reply)
-		tableUpdates = reply
+		if err == nil {
+			tableUpdates = reply
+		}
 	case ovsdb.ConditionalMonitorRPC:
 		var reply ovsdb.TableUpdates2
 		err = o.rpcClient.CallWithContext(ctx, monitor.Method, args, &reply)
-		tableUpdates = reply
+		if err == nil {
+			tableUpdates = reply
+		}
 	case ovsdb.ConditionalMonitorSinceRPC:
 		var reply ovsdb.MonitorCondSinceReply
 		err = o.rpcClient.CallWithContext(ctx, monitor.Method, args, &reply)
-		if err == nil && reply.Found {
-			monitor.LastTransactionID = reply.LastTransactionID
-			lastTransactionFound = true
+		if err == nil {
+			if reply.Found {
+				monitor.LastTransactionID = reply.LastTransactionID
+				lastTransactionFound = true
+			}
+			tableUpdates = reply.Updates
 		}
-		tableUpdates = reply.Updates
 	default:
 		return fmt.Errorf("unsupported monitor method: %v", monitor.Method)
 	}
